@@ -131,8 +131,9 @@ def verify(pid, letter, src, tier, keep=False):
             if os.path.exists(runtxt):
                 for line in open(runtxt):
                     line = line.strip().strip("`")
-                    if line.startswith("go ") or " go test" in line or " go run" in line:
-                        cmd = line
+                    m0 = re.search(r"\bgo (test|run) .*", line)
+                    if m0 and not line.startswith("#"):
+                        cmd = m0.group(0).split(" #")[0].strip()
                         break
             meta["demo_cmd"] = cmd
             placed = []
@@ -193,6 +194,29 @@ def verify(pid, letter, src, tier, keep=False):
         meta["needs_to_manifest"] = txt[:1500]
     json.dump(meta, open(os.path.join(dst, "meta.json"), "w"), indent=1)
     return meta
+
+
+def reverify(names):
+    """Re-run existing tests + demonstration for stored seeds (e.g. after a run on an overloaded machine)."""
+    for d in sorted(glob.glob(os.path.join(VERIF, "seeded", "*"))):
+        name = os.path.basename(d)
+        if names and name not in names:
+            continue
+        pid, letter = name.split("_")
+        src = "/tmp/reverify-src-%s" % name
+        shutil.rmtree(src, ignore_errors=True)
+        os.makedirs(src)
+        shutil.copyfile(os.path.join(d, "patch.diff"), os.path.join(src, "%s.patch.diff" % name))
+        if os.path.isdir(os.path.join(d, "demo")):
+            shutil.copytree(os.path.join(d, "demo"), os.path.join(src, "%s.demo" % name))
+        if os.path.exists(os.path.join(d, "description.md")):
+            shutil.copyfile(os.path.join(d, "description.md"), os.path.join(src, "%s.md" % name))
+        old = json.load(open(os.path.join(d, "meta.json")))
+        m = verify(pid, letter, src, "quick")
+        shutil.rmtree(src, ignore_errors=True)
+        if m:
+            st = m["steps"]
+            print(name, "tests", st.get("existing_tests_pass_with_change"), "demo", st.get("demo_confirmed"), "detected", m.get("detected"))
 
 
 def recheck(names, tier):
@@ -258,5 +282,7 @@ if __name__ == "__main__":
             print(json.dumps({k: v for k, v in m.items() if k not in ("needs_to_manifest",)}, indent=1)[:3000])
     elif a[0] == "recheck":
         recheck([x for x in a[1:] if not x.startswith("--") and x not in ("quick", "thorough")], tier)
+    elif a[0] == "reverify":
+        reverify([x for x in a[1:] if not x.startswith("--")])
     elif a[0] == "table":
         table()
